@@ -1046,11 +1046,11 @@ struct Digit {
                 if (power_increased) {
                     zeros = SizeT(number_length - fraction_length);
                 } else {
-                    const SizeT rem    = (index - started_at);
-                    const SizeT needed = SizeT(number_length - calculated_digits);
+                    // Every skipped digit beyond the fraction is a zero of the integer part.
+                    const SizeT rem = (index - started_at);
 
-                    if (rem > needed) {
-                        zeros = (rem - needed);
+                    if (rem > fraction_length) {
+                        zeros = (rem - fraction_length);
                     }
                 }
 
@@ -1127,11 +1127,11 @@ struct Digit {
                     if (power_increased) {
                         zeros = SizeT(number_length - fraction_length);
                     } else {
-                        const SizeT rem    = (index - started_at);
-                        const SizeT needed = SizeT(number_length - calculated_digits);
+                        // Every skipped digit beyond the fraction is a zero of the integer part.
+                        const SizeT rem = (index - started_at);
 
-                        if (rem > needed) {
-                            zeros = (rem - needed);
+                        if (rem > fraction_length) {
+                            zeros = (rem - fraction_length);
                         }
                     }
 
